@@ -133,6 +133,37 @@ def _labels(objs):
     return [o.attrs.get("label") if isinstance(o, SymObj) else repr(o) for o in objs]
 
 
+def _callers_reject(repo, root, pname, value):
+    """every caller of the (private) solve root hands over its own parameter `pname` and raises on every path when that parameter is `value`"""
+    from ..absint import option_outcomes, bool_decider
+    if not root.name.startswith("_"):
+        return False
+    pep = common.pep_class(repo)
+    callers = [(f2, c) for f2 in pep.methods.values() if f2 is not root for c in ast.walk(f2) if isinstance(c, ast.Call) and call_name(c) == root.name]
+    if not callers:
+        return False
+    for f2, c in callers:
+        if pname not in params_of(f2) or not any(isinstance(a, ast.Name) and a.id == pname for a in list(c.args) + [k.value for k in c.keywords]):
+            return False
+        if any(isinstance(n0, ast.Name) and n0.id == pname and isinstance(n0.ctx, ast.Store) for n0 in ast.walk(f2)):
+            return False
+
+        def atom(t):
+            if not any(isinstance(n0, ast.Name) and n0.id == pname for n0 in ast.walk(t)):
+                return None
+            if any(isinstance(n0, ast.Name) and n0.id not in (pname, "str", "int", "len", "isinstance", "re") for n0 in ast.walk(t)):
+                return None
+            try:
+                v = IndexInterp({pname: value, "str": ("type", "str"), "int": ("type", "int")}).ev(t)
+                return bool(v) if not isinstance(v, tuple) else None
+            except AnalysisError:
+                return None
+        outs = option_outcomes(f2.body, bool_decider(atom))
+        if any(k0 in ("next", "return") for (k0, _t) in outs):
+            return False
+    return True
+
+
 def r_solve_program(ctx, only):
     """only: the clauses that belong to the property being checked (drain, generate, track, duals, none, heur, primal, return, verbosity)"""
     if getattr(ctx, "_solveprog_done", None) is not None:
@@ -339,6 +370,9 @@ def r_solve_program(ctx, only):
                     ctx.notes.append("R-SOLVEPROG option probe %r skipped: %s" % (bad, e))
                 continue
             n += 1
+            pname = [p0 for p0, r0 in role.items() if r0 == what][0]
+            if _callers_reject(repo, root, pname, bad):
+                continue          # validated by every caller before the root is entered
             problems.setdefault("options", "%s = %r is accepted (the solve goes through and returns `%r`); the documented values are %s" % (
                 "dimension_reduction_heuristic" if what == "heur" else "return_primal_or_dual", bad, ret,
                 "None, 'trace' and 'logdet' followed by an integer" if what == "heur" else "'dual' and 'primal'"))
